@@ -4,9 +4,16 @@ Line-protocol driver for the C12 correspondence: evaluates the very
 definitions of `SpecVerif.C12` that the theorems of `Props/C12.lean` are about.
 
 Input (one command per line, tokens separated by single spaces):
-  sp <9 flag chars> <getter token>+     start a spec_property case; flags in the order
-                                        overridable cache hasSetter hasDeleter onSpecClass
-                                        managed hasPreparer hasGetter allowAttrErr
+  sp <6 flag chars> <layout> <getter token>+
+                                        start a spec_property case; flags in the order
+                                        overridable cache hasSetter hasDeleter hasGetter allowAttrErr;
+                                        <layout> is the inheritance chain of type(instance), base first, classes
+                                        separated by `/`, each a subset of the letters `s` (decorated with
+                                        @spec_class) `d` (declares the spec_property) `a` (annotates x) `p` (defines
+                                        _prepare_x), or `-` for none of them; or `<Lchain>+<Rchain>><leaf>/<tail…>`:
+                                        two independent base chains joined by class leaf(Ltop, Rtop). The host flags
+                                        onSpecClass / managed / hasPreparer are computed by the model
+                                        (`SpecVerif.C12.resolve`, `resolveMI`).
   cp <7 flag chars> <getter token>+     start a classproperty case; flags
                                         overridable cache perSubclass hasSetter hasDeleter
                                         hasGetter allowAttrErr
@@ -62,12 +69,15 @@ def parseG (s : String) : Option (Except Err V) :=
   else if s == "z" then some (.ok .pcf)
   else (parseV s).map .ok
 
-/-- the harness's `_prepare_x` -/
-def thePreparer : V → V
-  | .int n => if n = 99 then .missing else if n = 98 then .int 0 else .int (n + 1000)
-  | .false_ => .int 1000          -- `False + 1000`
-  | .str n => if n % 2 = 0 then .int (n + 2000) else .str n
-  | v => v
+/-- the harness's `_prepare_x` (97, 96 and the strs s3, s7, … make it raise) -/
+def thePreparer : V → Except Err V
+  | .int n =>
+    if n = 99 then .ok .missing else if n = 98 then .ok (.int 0)
+    else if n = 97 then .error .typeError else if n = 96 then .error .attributeError
+    else .ok (.int (n + 1000))
+  | .false_ => .ok (.int 1000)          -- `False + 1000`
+  | .str n => if n % 2 = 0 then .ok (.int (n + 2000)) else if n % 4 = 3 then .error .valueError else .ok (.str n)
+  | v => .ok v
 
 def tableGet (tab : Array (Except Err V)) (n : Nat) : Except Err V :=
   if tab.size = 0 then .ok (.int 0) else tab[n % tab.size]!
@@ -90,11 +100,30 @@ def mkCWorld (tab : Array (Except Err V)) : CWorld Nat V :=
 
 def flag (s : String) (i : Nat) : Bool := (s.toList.getD i '0') == '1'
 
-def parseCfg (s : String) : Option Cfg :=
-  if s.length ≠ 9 then none else
+def parseOpts (s : String) : Option Opts :=
+  if s.length ≠ 6 then none else
   some { overridable := flag s 0, cache := flag s 1, hasSetter := flag s 2, hasDeleter := flag s 3,
-         onSpecClass := flag s 4, managed := flag s 5, hasPreparer := flag s 6,
-         hasGetter := flag s 7, allowAttrErr := flag s 8 }
+         hasGetter := flag s 4, allowAttrErr := flag s 5 }
+
+def parseClass (s : String) : Option ClassDesc :=
+  if s.isEmpty then none
+  else if s == "-" then some ⟨false, false, false, false⟩
+  else if s.toList.all (fun ch => ch == 's' || ch == 'd' || ch == 'a' || ch == 'p') then
+    some ⟨s.toList.contains 's', s.toList.contains 'd', s.toList.contains 'a', s.toList.contains 'p'⟩
+  else none
+
+def parseChain (s : String) : Option (List ClassDesc) :=
+  if s.isEmpty then some [] else (s.splitOn "/").mapM parseClass
+
+/-- `chain`, or `Lchain+Rchain>leaf/tail…` (two base chains joined by `leaf`) -/
+def parseLayout (s : String) : Option Resolved :=
+  match s.splitOn ">" with
+  | [chain] => (parseChain chain).map resolve
+  | [bases, rest] =>
+    match bases.splitOn "+", parseChain rest with
+    | [l, r], some (leaf :: tail) => do pure (resolveMI (← parseChain l) (← parseChain r) leaf tail)
+    | _, _ => none
+  | _ => none
 
 def parseCCfg (s : String) : Option CCfg :=
   if s.length ≠ 7 then none else
@@ -165,12 +194,12 @@ def parseCOp (ts : List String) : Option (COp Nat V) :=
 
 def handle (m : Mode) (line : String) : Mode × String :=
   match (line.trimAscii.toString.splitOn " ").filter (· ≠ "") with
-  | "sp" :: flags :: tab =>
-    match parseCfg flags, tab.mapM parseG with
-    | some c, some t =>
+  | "sp" :: flags :: layout :: tab =>
+    match parseOpts flags, parseLayout layout, tab.mapM parseG with
+    | some o, some l, some t =>
       let s : St V := St.init
-      (.sp (mkWorld t.toArray) c #[s], "ok ;; " ++ showSt s)
-    | _, _ => (m, "bad-op")
+      (.sp (mkWorld t.toArray) (cfgOf o l) #[s], "ok ;; " ++ showSt s)
+    | _, _, _ => (m, "bad-op")
   | "cp" :: flags :: tab =>
     match parseCCfg flags, tab.mapM parseG with
     | some c, some t =>
